@@ -115,6 +115,18 @@ func determinismMem(r *Run) {
 		base.Put(w.Path(0), data)
 		r.Probe("file>=1MiB")
 	}
+	if !par1Set && t.Bool(1, 120, "big-volumes") {
+		// recovery volumes of several MiB holding several blocks each
+		// (writers tend to treat big files differently: buffering,
+		// chunking, parallel assembly)
+		w.S = []int{256 << 10, 512 << 10, 1 << 20, 2 << 20}[t.Draw(4, "big-s")]
+		w.R = 3 + t.Draw(13, "big-r")
+		size := w.S/2 + t.Draw(2*w.S, "big-size")
+		data := expandContent(ckRandom, t.Draw64(0, "big-seed"), size, 64)
+		w.Files[0].Data = data
+		base.Put(w.Path(0), data)
+		r.Probe("big-volumes")
+	}
 	if !par1Set && len(w.Files) >= 2 && t.Bool(1, 30, "file-id-twins") {
 		// two files whose PAR2 file ids agree in their most significant 32
 		// bits (found by a birthday search over names): the recovery set
